@@ -68,6 +68,7 @@ static int pool[MAXN], npool;
 static long lclock = 1;
 static long cs_begin[VRT_MAXT];	/* begin time of the open section of each runtime thread, 0: none */
 static int in_op[VRT_MAXT], in_crcu[VRT_MAXT], opstep[VRT_MAXT], park_req[VRT_MAXT], parked[VRT_MAXT];
+static int park_after_crcu[VRT_MAXT];	/* park at the first primitive after queue_call_rcu returned */
 static void (*on_park[VRT_MAXT])(void);
 static int solo_tid = -1, worker_tid[MAXT + 1], worker_done[MAXT + 1];
 static long pending_cbs;
@@ -179,6 +180,10 @@ static void lfq_call_rcu(struct rcu_head *head, void (*func)(struct rcu_head *he
 	call_rcu(head, func);
 	in_crcu[me]--;
 	vrt_log("RET call_rcu");
+	if (park_after_crcu[me]) {
+		park_after_crcu[me] = 0;
+		park_req[me] = opstep[me] + 1;
+	}
 }
 
 /* ---- scheduling hook: every shimmed primitive ------------------------------------------------ */
@@ -248,8 +253,9 @@ static void solo_begin(int enq)
 	if (!solo_pct || solo_tid >= 0 || vrt_rand() % 100 >= (unsigned)solo_pct)
 		return;
 	solo_tid = me;
-	/* enqueue: (LD MB CAS CAS) at most twice.  dequeue: 3 per leading dummy, then at most 2 + 8 + 2 */
-	solo_bound = enq ? 8 : 3 * dummies_in_queue + 12;
+	/* enqueue: (LD MB CAS CAS) at most twice.  dequeue: (LD head, LD next, LD tail, CAS tail, CAS head) per
+	 * leading dummy, then at most LD LD + enqueue_dummy (8) + LD next + LD tail + CAS tail + CAS head */
+	solo_bound = enq ? 8 : 5 * dummies_in_queue + 14;
 	for (i = 1; i <= nthreads; i++)
 		if (worker_tid[i] && worker_tid[i] != me && !worker_done[i])
 			vrt_freeze(worker_tid[i], 1);
@@ -402,9 +408,10 @@ static void E_parked(void)
 	ctr0 = rcu_gp.ctr;
 }
 
+#define WAIT_LIMIT 60000UL	/* directed scripts never wait for ever: if the state they aim at cannot be set up the run just goes on */
 static void wait_until(volatile int *flag, int v)
 {
-	while (*flag < v)
+	while (*flag < v && vrt_steps() < WAIT_LIMIT)
 		vrt_sleep(1);
 }
 
@@ -440,7 +447,7 @@ static void *uafF(void *arg)
 	wait_until(&stage, 1);
 	/* begin the section only after the grace period of the reclaimer has flipped the phase:
 	 * this section is not a pre-existing reader of that grace period */
-	while (*(volatile unsigned long *)&rcu_gp.ctr == ctr0)
+	while (*(volatile unsigned long *)&rcu_gp.ctr == ctr0 && vrt_steps() < WAIT_LIMIT)
 		vrt_sleep(1);
 	do_lock();
 	park_req[vrt_self()] = 3;	/* LD q->tail, MB done; parked before the CAS on tail->next */
@@ -459,7 +466,7 @@ static void *uafD_node(void *arg)
 	tidD = vrt_self();
 	rcu_register_thread();
 	set_thread_call_rcu_data(crdp);
-	while (!parked[tidE])
+	while (!parked[tidE] && vrt_steps() < WAIT_LIMIT)
 		vrt_sleep(1);
 	do_lock();
 	id = do_deq();
@@ -489,16 +496,53 @@ static void *uafD_dummy(void *arg)
 	tidD = vrt_self();
 	rcu_register_thread();
 	set_thread_call_rcu_data(crdp);
-	while (!parked[tidE])
+	while (!parked[tidE] && vrt_steps() < WAIT_LIMIT)
 		vrt_sleep(1);
 	do_lock();
-	park_req[vrt_self()] = 4;	/* LD head, LD next, CAS head (dummy0 removed, call_rcu); parked before the retry */
+	park_after_crcu[vrt_self()] = 1;	/* the initial dummy is removed and handed to call_rcu; parked before the retry */
 	on_park[vrt_self()] = D_parked;
 	do_deq();
+	stage = 1;
 	do_unlock();
-	while (dummy_state[first_dummy] != 3)
+	while (dummy_state[first_dummy] != 3 && vrt_steps() < WAIT_LIMIT)
 		vrt_sleep(1);
 	vrt_freeze(tidF, 0);
+	rcu_unregister_thread();
+	return NULL;
+}
+
+/* two-dummies: two dequeuers both see the last user node x with x->next == NULL and both enqueue a dummy; an
+ * enqueue slips in between.  Quiescent end state: chain [dummyA, dummyB], no user node. */
+static int tidD1, tidD2;
+
+static void *ddD(void *arg)
+{
+	int which = (int)(long)arg;
+	if (which == 1) tidD1 = vrt_self(); else tidD2 = vrt_self();
+	rcu_register_thread();
+	set_thread_call_rcu_data(crdp);
+	do_lock();
+	park_req[vrt_self()] = 3;	/* LD head, LD head->next (NULL) done; parked at the first primitive of enqueue_dummy */
+	do_deq();
+	do_unlock();
+	stage++;
+	rcu_unregister_thread();
+	return NULL;
+}
+
+static void *ddE(void *arg)
+{
+	int id = (int)(long)arg;
+	rcu_register_thread();
+	set_thread_call_rcu_data(crdp);
+	while (!(parked[tidD1] && parked[tidD2]) && vrt_steps() < WAIT_LIMIT)
+		vrt_sleep(1);
+	do_lock();
+	do_enq(id);
+	do_unlock();
+	vrt_freeze(tidD1, 0);
+	wait_until(&stage, 1);
+	vrt_freeze(tidD2, 0);
 	rcu_unregister_thread();
 	return NULL;
 }
@@ -604,7 +648,7 @@ int main(int argc, char **argv)
 		else if (!strcmp(argv[i], "--freepct") && i + 1 < argc) free_pct = atoi(argv[++i]);
 		else if (!strcmp(argv[i], "--mode") && i + 1 < argc) {
 			i++;
-			mode = !strcmp(argv[i], "uaf-node") ? 1 : !strcmp(argv[i], "uaf-dummy") ? 2 : 0;
+			mode = !strcmp(argv[i], "uaf-node") ? 1 : !strcmp(argv[i], "uaf-dummy") ? 2 : !strcmp(argv[i], "two-dummies") ? 3 : 0;
 		}
 	}
 	if (nthreads > MAXT) nthreads = MAXT;
@@ -649,7 +693,7 @@ int main(int argc, char **argv)
 			tids[i] = vrt_spawn("worker", worker, (void *)(long)i);
 	} else {
 		park_pct = 0; solo_pct = 0;
-		if (mode == 1) {
+		if (mode == 1 || mode == 3) {
 			/* queue [nodeB] with head = tail = nodeB, the initial dummy already reclaimed */
 			int a;
 			do_lock(); do_enq(pool[--npool]); do_enq(pool[--npool]); a = do_deq(); do_unlock();
@@ -659,9 +703,15 @@ int main(int argc, char **argv)
 			if (a >= 0) { node_state[a] = 0; vrt_log("RECLAIM node%d reuse", a); pool[npool++] = a; }
 		}
 		nthreads = 3;
-		tids[1] = vrt_spawn("E", uafE, (void *)(long)pool[--npool]);
-		tids[2] = vrt_spawn("D", mode == 1 ? uafD_node : uafD_dummy, NULL);
-		tids[3] = vrt_spawn("F", uafF, (void *)(long)pool[--npool]);
+		if (mode == 3) {
+			tids[1] = vrt_spawn("D1", ddD, (void *)1L);
+			tids[2] = vrt_spawn("D2", ddD, (void *)2L);
+			tids[3] = vrt_spawn("E", ddE, (void *)(long)pool[--npool]);
+		} else {
+			tids[1] = vrt_spawn("E", uafE, (void *)(long)pool[--npool]);
+			tids[2] = vrt_spawn("D", mode == 1 ? uafD_node : uafD_dummy, NULL);
+			tids[3] = vrt_spawn("F", uafF, (void *)(long)pool[--npool]);
+		}
 	}
 	for (i = 1; i <= nthreads; i++)
 		vrt_join(tids[i]);
@@ -671,7 +721,7 @@ int main(int argc, char **argv)
 	for (i = 0; i < nnodes; i++)
 		if (node_state[i] == 1)
 			inq++;
-	if (inq)
+	if (inq || mode == 3)
 		expect_destroy(inq);
 	do_lock();
 	while (do_deq() >= 0)
